@@ -1,4 +1,6 @@
 import RNacos.Model.Sync
+import RNacos.Model.Digest
+import RNacos.Gen.Sync
 /-!
 # C15 — registry converges: after quiescence every node returns the same instances
 
@@ -223,5 +225,104 @@ example :
       [.client ⟨1, some 5⟩, .flush, .deliver, .beat 1, .beatFlush, .deliver]
     l.quiescent ∧ l.copy 1 = some 5 := by
   unfold Link.quiescent; decide
+
+end RNacos.Props.C15
+
+/-! ## the digest of a node's gRPC connections
+
+`RNacos/Model/Digest.lean`: every 12 s a node sends every peer the list of its gRPC connections with the instances they
+hold; the peer forgets the connections it remembers for that node that are not named, removes recorded instances that
+are not listed and asks for listed ones it lacks.  It is the repair path for removals that a peer missed - in
+particular when the node was restarted before the peers declared it dead and holds no connection any more.  Whether the
+digest goes out also when it is empty is read off the source on every run (`Gen.digestSentWhenEmpty`). -/
+namespace RNacos.Props.C15
+open RNacos.Digest
+
+theorem lookup_none (d : Held) (c : Client) (h : lookup d c = none) : (d.map (·.1)).contains c = false := by
+  unfold lookup at h
+  simp only [Option.map_eq_none_iff, List.find?_eq_none] at h
+  cases hc : (d.map (·.1)).contains c with
+  | false => rfl
+  | true =>
+    simp only [List.contains_iff_mem, List.mem_map] at hc
+    obtain ⟨e, he, rfl⟩ := hc
+    exact absurd (by simp) (h e he)
+
+/-- what a peer has recorded is recorded for a connection it remembers (instances arrive together with the
+connection's id: `node_add_client`) -/
+def PeerOK (p : Peer) : Prop := ∀ c, p.recorded c ≠ [] → p.remembered.contains c = true
+
+/-- **a digest makes the peer's record equal to the sender's**: for every connection, named or not, the peer holds
+afterwards exactly what the digest lists for it - nothing for a connection the digest does not name -/
+theorem receive_matches_sender (p : Peer) (d : Held) (hp : PeerOK p) (c : Client) :
+    (receive p d).recorded c = (lookup d c).getD [] := by
+  unfold receive reconcile dropStale
+  simp only
+  cases hl : lookup d c with
+  | some ks => rfl
+  | none =>
+    simp only [Option.getD_none]
+    rw [lookup_none d c hl]
+    cases hr : p.remembered.contains c with
+    | true => simp
+    | false =>
+      simp only [Bool.false_and, Bool.false_eq_true, if_false]
+      cases hrec : p.recorded c with
+      | nil => rfl
+      | cons a l => exact absurd (hp c (by rw [hrec]; simp)) (by rw [hr]; simp)
+
+/-- in particular **the empty digest clears everything** the peer still holds for the node -/
+theorem empty_digest_clears (p : Peer) (hp : PeerOK p) (c : Client) : (receive p []).recorded c = [] := by
+  rw [receive_matches_sender p [] hp c]; rfl
+
+/-- and the invariant is kept -/
+theorem receive_keeps_peerOK (p : Peer) (d : Held) (hp : PeerOK p) : PeerOK (receive p d) := by
+  intro c hc
+  rw [receive_matches_sender p d hp c] at hc
+  cases hl : lookup d c with
+  | none => rw [hl] at hc; exact absurd rfl hc
+  | some ks =>
+    have hnamed : (d.map (·.1)).contains c = true := by
+      cases hn : (d.map (·.1)).contains c with
+      | true => rfl
+      | false =>
+        unfold lookup at hl
+        simp only [Option.map_eq_some_iff] at hl
+        obtain ⟨e, he, _⟩ := hl
+        have hm := List.mem_of_find?_eq_some he
+        have hk : e.1 = c := by simpa using List.find?_some he
+        have : c ∈ d.map (·.1) := List.mem_map.2 ⟨e, hm, hk⟩
+        rw [← List.contains_iff_mem] at this
+        rw [hn] at this; cases this
+    unfold receive reconcile dropStale
+    simp only [List.contains_iff_mem, List.mem_append, List.mem_filter, List.mem_map] at hnamed ⊢
+    by_cases hin : c ∈ p.remembered
+    · left; exact ⟨hin, by simpa [List.contains_iff_mem] using hnamed⟩
+    · right
+      refine ⟨by simpa using hnamed, ?_⟩
+      simp only [Bool.not_eq_true', List.contains_eq_mem, decide_eq_false_iff_not, List.mem_filter, not_and]
+      intro h _; exact absurd h hin
+
+/-- **one round heals the peer**, as the code stands (the digest is sent whatever it contains): after it the peer's record
+of the node's connections is the node's own - also for a node that was restarted and holds none -/
+theorem digest_round_heals (h : Held) (p : Peer) (hp : PeerOK p) (c : Client) :
+    (round RNacos.Gen.digestSentWhenEmpty h p).recorded c = (lookup h c).getD [] := by
+  have hflag : RNacos.Gen.digestSentWhenEmpty = true := by decide
+  rw [hflag]
+  unfold round send
+  simp only [Bool.not_true, Bool.and_false, Bool.false_eq_true, if_false]
+  exact receive_matches_sender p h hp c
+
+/-- kept visible: were the empty digest not sent, a peer that missed the removal would list the instances of a
+connection that is gone for ever -/
+theorem unsent_empty_digest_leaves_ghosts :
+    ∃ (p : Peer), PeerOK p ∧ (round false [] p).recorded 7 ≠ (lookup [] 7).getD [] :=
+  ⟨⟨[7], fun c => if c = 7 then [1] else []⟩, by intro c hc; by_cases h : c = 7 <;> simp_all, by decide⟩
+
+/-! non-vacuity -/
+example : PeerOK ⟨[7, 8], fun c => if c = 7 then [1, 2] else []⟩ := by
+  intro c hc; by_cases h : c = 7 <;> simp_all
+example : (receive ⟨[7, 8], fun c => if c = 7 then [1, 2] else []⟩ [(8, [3])]).recorded 7 = [] ∧
+    (receive ⟨[7, 8], fun c => if c = 7 then [1, 2] else []⟩ [(8, [3])]).recorded 8 = [3] := by decide
 
 end RNacos.Props.C15
